@@ -369,7 +369,7 @@ Section ConeSlab.
   Qed.
 End ConeSlab.
 
-Check cone_slab.
+
 Theorem cone_lbinf h r0 r1 round o : 0 <= r0 -> 0 <= r1 -> @k_cone ROps h r0 r1 round = Some o -> lbinf_3 o.
 Proof.
   intros H0 H1 H. destruct (cone_obj_eq _ _ _ _ _ H) as (-> & Hh & Hr & Hhr).
@@ -377,14 +377,18 @@ Proof.
   destruct (cone_facts h r0 r1 round Hh Hhr) as (U1 & Uy & Hsh & Hl & E1 & E2). cbv zeta in *.
   apply slab_all_lbinf3; cbn [bb3 ev3 cone_obj].
   - unfold ordered3; cbn [b3min b3max wx wy wz]. rewrite two_eq. lra.
-  - intros p. destruct (cone_slab _ _ _ _ _ _ _ U1 Uy Hr Hsh Hl E1 E2 (@v2len ROps (mkV2 (wx p) (wy p))) (wz p)) as [Sr Sz].
+  - intros p. destruct (cone_slab _ _ _ round _ _ _ U1 Uy Hsh Hl E1 E2 (@v2len ROps (mkV2 (wx p) (wy p))) (wz p)) as [Sr Sz].
     cbv zeta in Sr, Sz.
     assert (Er : Rmax (cone_sr0 h r0 r1 round) (cone_sr1 h r0 r1 round) + round = cone_r h r0 r1 round).
     { unfold cone_r. unfold Rmax; repeat destruct (Rle_dec _ _); lra. }
-    rewrite Er in Sr. unfold cone_sh in Sz. rewrite two_eq in Sz.
+    unfold slab3; cbn [b3min b3max wx wy wz].
+    match goal with |- context [cone_field ?a ?b ?c ?d ?e ?f ?g ?hh] => set (F := cone_field a b c d e f g hh) end.
+    assert (Sr' : len2 (mkV2 (wx p) (wy p)) - cone_r h r0 r1 round <= F) by (rewrite <- Er; exact Sr).
+    assert (Sz' : Rabs (wz p) - (cone_sh h round + round) <= F) by exact Sz.
+    clearbody F. clear Sr Sz. unfold cone_sh in Sz'. rewrite two_eq in *.
     pose proof (abs_le_len2_x (mkV2 (wx p) (wy p))) as X. pose proof (abs_le_len2_y (mkV2 (wx p) (wy p))) as Y.
-    cbn [vx vy] in X, Y. change (@v2len ROps (mkV2 (wx p) (wy p))) with (len2 (mkV2 (wx p) (wy p))) in Sr.
+    cbn [vx vy] in X, Y.
     pose proof (Rabs_ge_l (wx p)). pose proof (Rabs_ge_r (wx p)). pose proof (Rabs_ge_l (wy p)). pose proof (Rabs_ge_r (wy p)).
     pose proof (Rabs_ge_l (wz p)). pose proof (Rabs_ge_r (wz p)).
-    unfold slab3; cbn [b3min b3max wx wy wz]. rewrite two_eq. repeat split; lra.
+    repeat split; lra.
 Qed.
